@@ -75,6 +75,14 @@ type acquireRec struct {
 type callRec struct {
 	caller, callee string
 	held           lockset
+	// status.go: where the call stands (straight-line run, acquisition of kvElection.mu, not-leader guard), its
+	// arguments, and whether it is a statement of its own (not deferred, not part of an expression)
+	blk, run int
+	sect     string
+	guard    bool
+	pos      string
+	args     []string
+	plain    bool
 }
 
 type lockAnalysis struct {
@@ -184,6 +192,7 @@ type walker struct {
 	blk, run  int
 	sect      string
 	guardSect string
+	plainCall *ast.CallExpr // the call that is the whole of the current expression statement
 }
 
 func (w *walker) fork() *walker {
@@ -300,7 +309,7 @@ func (w *walker) call(c *ast.CallExpr) {
 		}
 		if owner != "" {
 			if _, ok := w.la.p.funcs[owner+"."+f.Sel.Name]; ok {
-				w.la.calls = append(w.la.calls, callRec{w.fn, owner + "." + f.Sel.Name, w.held.clone()})
+				w.la.calls = append(w.la.calls, w.callRec(c, owner+"."+f.Sel.Name))
 				w.expr(f.X)
 				return
 			}
@@ -311,9 +320,22 @@ func (w *walker) call(c *ast.CallExpr) {
 		w.expr(f.X)
 	case *ast.Ident:
 		if _, ok := w.la.p.funcs[f.Name]; ok {
-			w.la.calls = append(w.la.calls, callRec{w.fn, f.Name, w.held.clone()})
+			w.la.calls = append(w.la.calls, w.callRec(c, f.Name))
 		}
 	}
+}
+
+func (w *walker) callRec(c *ast.CallExpr, callee string) callRec {
+	var args []string
+	for _, a := range c.Args {
+		if bl, ok := a.(*ast.BasicLit); ok {
+			args = append(args, bl.Value)
+		} else {
+			args = append(args, exprText(a))
+		}
+	}
+	return callRec{w.fn, callee, w.held.clone(), w.blk, w.run, w.sect, w.sect != "" && w.guardSect == w.sect,
+		w.la.p.pos(c), args, w.plainCall == c}
 }
 
 // atomicOp recognises e.<field>.Store(x) / Load() / CompareAndSwap / Swap on an atomic field of kvElection.
@@ -388,10 +410,125 @@ func (w *walker) assignTarget(e ast.Expr) {
 	}
 }
 
+// statusStorers: simple names of the functions of the package that store a status field, directly or through a call;
+// statusSpliceable: those among them whose body is one straight-line run with the stores at its top level and no lock
+// operation, so that a call of one, standing as a statement, executes all its stores then and there (status.go splices
+// them into the caller's run). Filled by analyseLocks before the walk.
+var statusStorers, statusSpliceable map[string]bool
+
+// calleeName: the simple name of a package function called directly, or of a method called on an identifier that the
+// package uses as receiver name of kvElection (x.timer.Stop() and ticker.Stop() are nobody's business here)
+func calleeName(c *ast.CallExpr) string {
+	switch f := c.Fun.(type) {
+	case *ast.SelectorExpr:
+		if id, ok := f.X.(*ast.Ident); ok && electionRecvNames[id.Name] {
+			return f.Sel.Name
+		}
+	case *ast.Ident:
+		return f.Name
+	}
+	return ""
+}
+
+var electionRecvNames = map[string]bool{}
+
+func directStatusStore(n ast.Node) bool {
+	found := false
+	ast.Inspect(n, func(x ast.Node) bool {
+		if c, ok := x.(*ast.CallExpr); ok {
+			if sel, ok := c.Fun.(*ast.SelectorExpr); ok {
+				switch sel.Sel.Name {
+				case "Store", "CompareAndSwap", "Swap":
+					if in, ok := sel.X.(*ast.SelectorExpr); ok && statusFields[in.Sel.Name] {
+						found = true
+					}
+				}
+			}
+		}
+		return !found
+	})
+	return found
+}
+
+func computeStatusStorers(p *pkgInfo) {
+	statusStorers, statusSpliceable = map[string]bool{}, map[string]bool{}
+	electionRecvNames = map[string]bool{}
+	for full, fd := range p.funcs {
+		if strings.HasPrefix(full, "kvElection.") && fd.Recv != nil && len(fd.Recv.List) == 1 && len(fd.Recv.List[0].Names) == 1 {
+			electionRecvNames[fd.Recv.List[0].Names[0].Name] = true
+		}
+	}
+	simple := func(full string) string {
+		if i := strings.LastIndex(full, "."); i >= 0 {
+			return full[i+1:]
+		}
+		return full
+	}
+	for full, fd := range p.funcs {
+		if fd.Body != nil && directStatusStore(fd.Body) {
+			statusStorers[simple(full)] = true
+		}
+	}
+	direct := map[string]bool{}
+	for k := range statusStorers {
+		direct[k] = true
+	}
+	for changed := true; changed; {
+		changed = false
+		for full, fd := range p.funcs {
+			if fd.Body == nil || statusStorers[simple(full)] {
+				continue
+			}
+			ast.Inspect(fd.Body, func(x ast.Node) bool {
+				if c, ok := x.(*ast.CallExpr); ok && statusStorers[calleeName(c)] {
+					if _, isLit := c.Fun.(*ast.FuncLit); !isLit {
+						statusStorers[simple(full)] = true
+						changed = true
+					}
+				}
+				return true
+			})
+		}
+	}
+	// spliceable: a method of kvElection that stores directly, whose body consists of simple statements only (which
+	// excludes returns, loops, locks, closures, stores behind a test and calls of other storers)
+	for full, fd := range p.funcs {
+		if fd.Body == nil || !direct[simple(full)] || !strings.HasPrefix(full, "kvElection.") {
+			continue
+		}
+		n := 0
+		for f2 := range p.funcs {
+			if simple(f2) == simple(full) {
+				n++
+			}
+		}
+		if n != 1 {
+			continue // the simple name is ambiguous
+		}
+		ok := true
+		for _, st := range fd.Body.List {
+			if es, isE := st.(*ast.ExprStmt); isE {
+				if c, isC := es.X.(*ast.CallExpr); isC && statusStorers[calleeName(c)] {
+					ok = false
+				}
+			}
+			if !simpleStmt(st) {
+				ok = false
+			}
+		}
+		if ok {
+			statusSpliceable[simple(full)] = true
+		}
+	}
+}
+
 func simpleStmt(s ast.Stmt) bool {
 	switch s := s.(type) {
 	case *ast.ExprStmt:
-		_, isCall := s.X.(*ast.CallExpr)
+		c, isCall := s.X.(*ast.CallExpr)
+		if isCall && statusStorers[calleeName(c)] && !statusSpliceable[calleeName(c)] {
+			return false // the callee stores status fields in a way that cannot be spliced here: the run ends
+		}
 		return isCall
 	case *ast.AssignStmt, *ast.IncDecStmt, *ast.DeclStmt:
 		return true
@@ -433,6 +570,9 @@ func touchesStatus(n ast.Node) bool {
 		case *ast.FuncLit:
 			found = true
 		case *ast.CallExpr:
+			if statusStorers[calleeName(x)] {
+				found = true // a helper that stores a status field
+			}
 			if sel, ok := x.Fun.(*ast.SelectorExpr); ok {
 				switch sel.Sel.Name {
 				case "Store", "CompareAndSwap", "Swap":
@@ -491,7 +631,11 @@ func (w *walker) branches(bodies [][]ast.Stmt, exhaustive bool) {
 func (w *walker) stmt(s ast.Stmt) {
 	switch s := s.(type) {
 	case *ast.ExprStmt:
+		if c, ok := s.X.(*ast.CallExpr); ok {
+			w.plainCall = c
+		}
 		w.expr(s.X)
+		w.plainCall = nil
 	case *ast.AssignStmt:
 		for _, r := range s.Rhs {
 			w.expr(r)
@@ -684,6 +828,7 @@ func genLocks(p *pkgInfo) string {
 
 func analyseLocks(p *pkgInfo) (*lockAnalysis, func(string) lockset, func(string) lockset) {
 	la := &lockAnalysis{p: p, roots: map[string]bool{}}
+	computeStatusStorers(p)
 	var names []string
 	for n := range p.funcs {
 		names = append(names, n)
